@@ -19,11 +19,11 @@ PROPS = {
 E2_BOUNDS = {
     "*": {"quick": "program family: M0 (m0_core, m0_slices, m0_callbacks, m0_results) + 2 random modules for VERIF_SEED; all argument/return values symbolic; slices and strings <= 3 elements, "
                    "string-slice lists <= 2x2; call histories of 3 steps over 2 handles; unwind = leaf count + 3",
-          "thorough": "program family: M0 + 12 random modules for VERIF_SEED; call histories of 4 steps; otherwise as quick"},
+          "thorough": "program family: M0 + 24 random modules for VERIF_SEED; call histories of 4 steps; otherwise as quick"},
     "C07": {"quick": "program family: M0 without callbacks + 1 random module, each fitted to the Dart and to the Kotlin profile; values as for C01",
-            "thorough": "program family: M0 without callbacks + 12 random modules, each fitted to the Dart and to the Kotlin profile"},
+            "thorough": "program family: M0 without callbacks + 24 random modules, each fitted to the Dart and to the Kotlin profile"},
     "C11": {"quick": "C header: every enum of M0 + 2 random modules; tables of Dart, Kotlin, C++, nanobind, JS: the family's enums + 12 adversarial patterns; variant index symbolic; 1..8 variants within i32",
-            "thorough": "as quick with 12 random modules"},
+            "thorough": "as quick with 24 random modules"},
     "C08": {"quick": "emitted JS: module m0_js (18 struct shapes), js.abi=legacy and spec; reference layout vs rustc: all structs of m0_js",
             "thorough": "same as quick"},
 }
